@@ -98,7 +98,8 @@ def run(ctx):
                 "variants, distance matrices, dba, subsequence alignment / search, hierarchical clustering): result of "
                 "every representation == result of the canonical ndarray (exact), or an explicit rejection of plain "
                 "Python sequences by the C engine; inputs bit-identical afterwards (values, strides, base buffer, list "
-                "identity); repeated and interleaved calls; shared settings dictionaries unchanged; NumPy-absent worker "
+                "identity); repeated and interleaved calls; search objects asked several questions in a row vs fresh objects; "
+                "shared settings dictionaries unchanged; NumPy-absent worker "
                 "for the routines that do not need NumPy; contiguity guards vs the Lean view model on random strided "
                 "views; non-trivial = a non-canonical representation")
     rng = ctx.rng
@@ -262,6 +263,29 @@ def run(ctx):
         evaluate("subsequence_search", lambda qv, s: [(m.idx, m.distance) for m in
                                                       subsequence_search(qv, s, dists_options=sopts).kbest_matches(2)],
                  sargs, False, canonical="list_nd", shared=sopts)
+        # a search object answers each question like a fresh object, whatever it was asked before
+        for use_c_ in (False, True, False, True):
+            hist = rng.choice([(1, None), (2, 5, None), (None, 2, None), (3, 1, 4), (1, 3)])
+            mk = lambda: subsequence_search(r1["nd"], cols["list_nd"], dists_options=dict(kwn), use_c=use_c_,
+                                            use_lb=rng.random() < 0.5)
+            res.evaluations += 1
+            res.hit("search_object_history")
+            try:
+                used = mk()
+                for kq in hist:
+                    got = [(int(m.idx), canon(float(m.distance))) for m in used.kbest_matches(k=kq)]
+                    want = [(int(m.idx), canon(float(m.distance))) for m in mk().kbest_matches(k=kq)]
+                    if sorted(got) != sorted(want):
+                        res.violations.append({"clause": "results do not depend on earlier calls on the same object",
+                                               "routine": "SubsequenceSearch.kbest_matches(use_c=%s)" % use_c_,
+                                               "history": list(hist), "k": kq, "got": got, "fresh": want,
+                                               "query": r1["nd"].tolist(), "series": [list(map(float, x)) for x in series]})
+                        break
+            except BaseException as ex:
+                if isinstance(ex, (KeyboardInterrupt, SystemExit)):
+                    raise
+                res.violations.append({"clause": "SubsequenceSearch history raised", "history": list(hist),
+                                       "got": type(ex).__name__ + ":" + str(ex)[:100]})
         hopts = dict(kwn)
         hargs = {k: (v,) for k, v in cols.items() if k in ("list_nd", "list_strided", "list_array", "list_list", "matrix",
                                                            "matrix_F")}
